@@ -12,6 +12,7 @@ import (
 	"encoding/binary"
 	"errors"
 	"fmt"
+	"net/netip"
 	"os"
 	"testing"
 	"time"
@@ -50,6 +51,48 @@ func c09SourceStream(t *testing.T, rep *hx.Report, orc *hx.Oracle, rng *hx.RNG) 
 	defer src.Close()
 	parser := packets.NewFrameParser()
 	buf := make([]byte, 1024)
+	feed := func(f []byte, et uint16, n int, class string) {
+		if err := unix.Send(tx, f, 0); err != nil {
+			t.Fatalf("send: %v", err)
+		}
+		src.SetReadDeadline(time.Now().Add(2 * time.Millisecond))
+		rerr := packets.ReadAndParse(src, buf, parser)
+		outcome := "parsed"
+		switch {
+		case rerr == nil:
+		case common.CheckProbeRetryable("verif", rerr):
+			outcome = "skipped"
+		default:
+			outcome = "fatal"
+		}
+		// the same frame once more, read directly: tie with the model of the read loop
+		if outcome != "fatal" {
+			if err := unix.Send(tx, f, 0); err != nil {
+				t.Fatalf("send: %v", err)
+			}
+			src.SetReadDeadline(time.Now().Add(2 * time.Millisecond))
+			m, derr := src.Read(buf)
+			tok := "none"
+			switch {
+			case derr == nil:
+				tok = "pkt " + hx2(buf[:m])
+			case !errors.Is(derr, os.ErrDeadlineExceeded):
+				tok = "error " + derr.Error()
+			}
+			lines, impls = append(lines, "link.hand "+hx2(f)), append(impls, tok)
+		}
+		rep.Case("capture-source", hx2(f), n >= 14, nil)
+		if class != "" {
+			rep.Hit("capture-source:" + class + ":" + outcome)
+		}
+		rep.Hit(fmt.Sprintf("capture-source:%s:len=%d", outcome, n))
+		if outcome == "fatal" && !errors.Is(rerr, os.ErrClosed) {
+			rep.Violate(hx.Violation{Kind: "spec",
+				What:   fmt.Sprintf("a %d-byte frame (EtherType %#04x) delivered by the kernel makes the read fail with a non-retryable error (%v): ReceiveProbe returns it and the run is aborted", n, et, rerr),
+				Sig:    map[string]string{"stream": "capture-source", "defect": "frame-aborts-run"},
+				Replay: map[string]any{"frame": hx2(f), "error": fmt.Sprint(rerr), "how": "AF_UNIX datagram pair → packets.afPacketSource.Read (no filter) → packets.ReadAndParse"}})
+		}
+	}
 	for n := 1; n <= 40; n++ {
 		for _, et := range []uint16{0x0800, 0x86dd, 0x0806, 0x8100} {
 			for k := 0; k < 3; k++ {
@@ -63,44 +106,32 @@ func c09SourceStream(t *testing.T, rep *hx.Report, orc *hx.Oracle, rng *hx.RNG) 
 				if k == 2 && n > 14 {
 					f[14] = 0x60
 				}
-				if err := unix.Send(tx, f, 0); err != nil {
-					t.Fatalf("send: %v", err)
-				}
-				src.SetReadDeadline(time.Now().Add(2 * time.Millisecond))
-				rerr := packets.ReadAndParse(src, buf, parser)
-				outcome := "parsed"
-				switch {
-				case rerr == nil:
-				case common.CheckProbeRetryable("verif", rerr):
-					outcome = "skipped"
-				default:
-					outcome = "fatal"
-				}
-				// the same frame once more, read directly: tie with the model of the read loop
-				if outcome != "fatal" {
-					if err := unix.Send(tx, f, 0); err != nil {
-						t.Fatalf("send: %v", err)
-					}
-					src.SetReadDeadline(time.Now().Add(2 * time.Millisecond))
-					m, derr := src.Read(buf)
-					tok := "none"
-					switch {
-					case derr == nil:
-						tok = "pkt " + hx2(buf[:m])
-					case !errors.Is(derr, os.ErrDeadlineExceeded):
-						tok = "error " + derr.Error()
-					}
-					lines, impls = append(lines, "link.hand "+hx2(f)), append(impls, tok)
-				}
-				rep.Case("capture-source", hx2(f), n >= 14, nil)
-				rep.Hit(fmt.Sprintf("capture-source:%s:len=%d", outcome, n))
-				if outcome == "fatal" && !errors.Is(rerr, os.ErrClosed) {
-					rep.Violate(hx.Violation{Kind: "spec",
-						What: fmt.Sprintf("a %d-byte frame (EtherType %#04x) delivered by the kernel makes the read fail with a non-retryable error (%v): ReceiveProbe returns it and the run is aborted", n, et, rerr),
-						Sig:  map[string]string{"stream": "capture-source", "defect": "frame-aborts-run"},
-						Replay: map[string]any{"frame": hx2(f), "error": fmt.Sprint(rerr), "how": "AF_UNIX datagram pair → packets.afPacketSource.Read (no filter) → packets.ReadAndParse"}})
-				}
+				feed(f, et, n, "")
 			}
+		}
+	}
+	// well-formed packets whose DECLARED length disagrees with the frame: total length 0 (what a NIC
+	// with segmentation offload leaves behind; gopacket takes the captured length then), too short,
+	// too long, and frames padded beyond the declared length (Ethernet minimum-size padding)
+	mac := []byte{2, 0, 0, 0, 0, 1, 2, 0, 0, 0, 0, 2}
+	r4, l4 := netip.MustParseAddr("10.9.8.7"), netip.MustParseAddr("192.0.2.2")
+	r6, l6 := netip.MustParseAddr("2001:db8::7"), netip.MustParseAddr("2001:db8::1")
+	p4 := ip4Packet(r4, l4, 1, 9, 250, 0, 0, nil, icmp4Msg(11, 0, [4]byte{}, ip4Packet(l4, r4, 1, 7, 1, 0, 0, nil, icmp4Msg(8, 0, [4]byte{0x12, 0x34, 0, 3}, nil))))
+	p6 := ip6Packet(r6, l6, 58, 60, icmp6Msg(r6, l6, 3, 0, [4]byte{}, ip6Packet(l6, r6, 58, 1, icmp6Msg(l6, r6, 128, 0, [4]byte{0x12, 0x34, 0, 3}, nil))))
+	for _, pad := range []int{0, 6, 18} {
+		for _, decl := range []int{0, 1, 19, 20, 27, len(p4) - 1, len(p4), len(p4) + 1, 1500, 0xffff} {
+			q := append([]byte(nil), p4...)
+			binary.BigEndian.PutUint16(q[2:], uint16(decl))
+			f := append(append(append([]byte(nil), mac...), 0x08, 0x00), q...)
+			f = append(f, make([]byte, pad)...)
+			feed(f, 0x0800, len(f), fmt.Sprintf("declared-len4=%d", decl))
+		}
+		for _, decl := range []int{0, 1, 7, len(p6) - 41, len(p6) - 40, len(p6) - 39, 1500, 0xffff} {
+			q := append([]byte(nil), p6...)
+			binary.BigEndian.PutUint16(q[4:], uint16(decl))
+			f := append(append(append([]byte(nil), mac...), 0x86, 0xdd), q...)
+			f = append(f, make([]byte, pad)...)
+			feed(f, 0x86dd, len(f), fmt.Sprintf("declared-len6=%d", decl))
 		}
 	}
 }
